@@ -83,19 +83,25 @@ def positional(ctx, case):
         idx = ctx.fresh_int('index', 0, n + 2, small=True)
     a = wl.Arg.Null()
     msg = _Msg(iface, mname)
+    # (1) the lookup functions themselves
     raised = None
+    got_name = got_iface = None
     try:
-        a.resolve(None, msg, idx)
+        got_name = protocol.get_arg_name(iface, mname, idx)
+        got_iface = protocol.look_up_interface(iface, mname, idx)
     except RuntimeError as e:
         raised = e
+    # (2) what a message line gets: Arg.resolve never fails on a position the description does not have
+    a.resolve(None, msg, idx)
     if (iface, mname) == ('wl_registry', 'bind'):
-        ctx.check('wl_registry.bind is exempt: no name, no type, no error', raised is None and a.name is None and a.type is None)
+        ctx.check('wl_registry.bind is exempt: no name, no type, no error', raised is None and got_name is None and a.name is None and a.type is None)
         return
     in_range = (idx < n)
     if ctx.symbolic:
         in_range = bool(in_range)
     if not in_range:
-        ctx.check('index beyond the last <arg> is an error, not a wrong label', raised is not None and a.name is None)
+        ctx.check('index beyond the last <arg>: the lookup reports an error, never a wrong label', raised is not None)
+        ctx.check('index beyond the last <arg>: the argument stays undecorated', a.name is None and a.type is None)
         return
     k = None
     for j in range(n):
@@ -103,8 +109,8 @@ def positional(ctx, case):
             k = j
             break
     ctx.check('no error for a described argument', raised is None)
-    ctx.check('argument %d of %s.%s is labelled with the name of the %d-th <arg>' % (k, iface, mname, k), a.name == args[k]['name'])
-    ctx.check('nil argument is typed with the interface the protocol declares', a.type == args[k]['interface'])
+    ctx.check('argument %d of %s.%s is labelled with the name of the %d-th <arg>' % (k, iface, mname, k), a.name == args[k]['name'] and got_name == args[k]['name'])
+    ctx.check('nil argument is typed with the interface the protocol declares', a.type == args[k]['interface'] and got_iface == args[k]['interface'])
     ctx.note('message', '%s.%s arg %d -> %r : %r' % (iface, mname, k, a.name, a.type))
 
 
